@@ -193,6 +193,14 @@ deriving DecidableEq, Inhabited
 inductive ScopeKind | global | afterUntil | after | until_ deriving DecidableEq, Repr, Inhabited
 inductive PatternKind | absence | existence | requirement | response | prevention deriving DecidableEq, Repr, Inhabited
 
+/-- member names of `PatternType` / `ScopeType` (the key into the regenerated tables G5 / G8) -/
+def PatternKind.all : List PatternKind := [.absence, .existence, .requirement, .response, .prevention]
+def PatternKind.pyName : PatternKind → String
+  | .absence => "ABSENCE" | .existence => "EXISTENCE" | .requirement => "REQUIREMENT" | .response => "RESPONSE" | .prevention => "PREVENTION"
+def ScopeKind.all : List ScopeKind := [.global, .afterUntil, .after, .until_]
+def ScopeKind.pyName : ScopeKind → String
+  | .global => "GLOBAL" | .afterUntil => "AFTER_UNTIL" | .after => "AFTER" | .until_ => "UNTIL"
+
 structure Scope where
   kind : ScopeKind
   activator : Option Event
